@@ -239,7 +239,7 @@ class PooledScheduler(sched.Scheduler):
         w.give(lambda: self._bootstrap(vt))
         return vt
 
-    def run(self, watchdog=20.0):
+    def run(self, watchdog=120.0):
         vthreading.RT.sched = self
         try:
             order = sorted(self._enabled(), key=lambda t: t.tid)
